@@ -448,6 +448,11 @@ def c11(case, impl):
         lb = [T.line_label(l)[0] for l in b]
         if any(x is not None and x != y for x, y in zip(la, lb)):
             return "filter_unused_linenum added or changed a label"
+        # ... and only labels nothing jumps to: every jump of the filtered output still has its line
+        labels, targets = out_labels_and_targets(program_lines(case, "\n".join(a)))
+        missing = [t for t in targets if t not in labels]
+        if missing and "*)" not in case.get("text", "") and all(t in [x for x in lb if x is not None] for t in missing):
+            return f"filter_unused_linenum removed the label {missing[0]} although the output jumps to it"
     # disabling pre-initialisation only removes prologue assignments and fill loops
     o = other("flip_init")
     if o is not None:
